@@ -167,7 +167,8 @@ def main_c03(tier, seed):
     insts = []
     for i in range(N):
         semi = (i % 5 == 4)
-        insts.append((semi, gen_instance(rng, nmax=9 if tier == "quick" else 14, nu=rng.randint(0, 4) if semi else 0, m=rng.randint(1, 6))))
+        insts.append((semi, gen_instance(rng, nmax=9 if tier == "quick" else 14, nu=rng.randint(0, 4) if semi else 0, m=rng.randint(1, 6),
+                                         kinds=("feat", "mat", "lattice", "feat", "mat", "lattice", "tiny", "sparse", "asym", "asym"))))
     terms, expect, recs = [], [], []
     prev = {}
     for ci, (semi, it) in enumerate(insts):
